@@ -4,8 +4,9 @@ import json
 import os
 import sys
 
-if os.environ.get("PYTHONHASHSEED") != "0":
-    os.environ["PYTHONHASHSEED"] = "0"
+_hs = os.environ.get("HVSIM_HASHSEED", "0")  # self-tests run the harness under another hash seed on purpose
+if os.environ.get("PYTHONHASHSEED") != _hs:
+    os.environ["PYTHONHASHSEED"] = _hs
     os.environ["PYTHONDONTWRITEBYTECODE"] = "1"
     os.execv(sys.executable, [sys.executable] + sys.argv)
 
@@ -39,6 +40,18 @@ def main(argv):
                 print(f"VIOLATION property={doc['property']} replay={os.path.abspath(argv[2])}")
             return 1
         return 0
+    if cmd == "digests":
+        from hvsim import selftest
+
+        for i, d, k in selftest.digests(argv[2], argv[3], int(argv[4]), int(argv[5])):
+            print("D", i, d, k)
+        return 0
+    if cmd == "digests-align":
+        from hvsim import selftest
+
+        for i, d, k in selftest.digests_align(int(argv[2]), int(argv[3]), int(argv[4]), argv[5]):
+            print("D", i, d, k)
+        return 0
     if cmd == "selftest":
         from hvsim import selftest
 
@@ -56,7 +69,8 @@ def main(argv):
         runs = os.environ.get("VERIF_RUNS")
         workers = os.environ.get("VERIF_WORKERS")
         return orchestrator.campaign(prop, tier, seed, PROPS[prop], workers=int(workers) if workers else None,
-                                     budget_s=float(budget) if budget else None, runs=int(runs) if runs else None)
+                                     budget_s=float(budget) if budget else None, runs=int(runs) if runs else None,
+                                     write_evidence=not os.environ.get("HVSIM_NO_EVIDENCE"))
     print(__doc__)
     return 2
 
